@@ -179,9 +179,31 @@ def grid_eval(d, psets, selfcheck=True):
     return out
 
 
+def malformed(d, dim=None):
+    """None if d is a well formed definition (optionally with points of `dim` coordinates), else a description"""
+    if len(d['P']) != prod(d['sizes']):
+        return 'number of control points %d != product of sizes %s' % (len(d['P']), list(d['sizes']))
+    dim = dim if dim is not None else len(d['P'][0])
+    if any(len(p) != dim for p in d['P']):
+        return 'control points of differing / wrong dimension'
+    for U, n, p in zip(d['kvs'], d['sizes'], d['degrees']):
+        if len(U) != n + p + 1:
+            return 'knot vector length %d != size %d + degree %d + 1' % (len(U), n, p)
+        if n < p + 1:
+            return 'fewer than degree+1 control points'
+        if any(x > y for x, y in zip(U, U[1:])):
+            return 'knot vector not sorted'
+        if not U[p] < U[n]:
+            return 'empty parametric domain'
+    return None
+
+
 def same_shape(ctx, obligation, d_new, psets_new, d_old, psets_old, scale, case, feats, tol=TOL):
     """judges 'definition d_new at psets_new gives the points of definition d_old at psets_old' (one transition).
     Reports the worst parameter combination as observed/expected."""
+    bad = malformed(d_new, len(d_old['P'][0]))
+    if bad:
+        return ctx.check(obligation, False, case, feats, 'a well formed definition', bad, 'result is not a well formed shape')
     new = grid_eval(d_new, psets_new)
     old = grid_eval(d_old, psets_old)
     assert len(new) == len(old)
